@@ -96,7 +96,15 @@ func ConstructMessageFromUnits(
 
 	merkleRoot, merkleTree := merkle.New(shards)
 
-	messageRoot := units[0].MessageRoot
+	// Any present unit carries the signed root (units[0] is nil whenever shard 0 is missing).
+	// RecoverData succeeded, so at least one unit is present.
+	var messageRoot MessageRoot
+	for _, unit := range units {
+		if unit != nil {
+			messageRoot = unit.MessageRoot
+			break
+		}
+	}
 	expectedRoot := MessageRoot(merkleRoot)
 	if messageRoot != expectedRoot {
 		// todo(rdr): probably need to write string methods for the MessageRoot type
